@@ -522,6 +522,53 @@ def hex_cases(ctx):
     return n
 
 
+def hex_layout_cases(ctx):
+    """from_hex() is from_bytes() of the bytes the text spells: pairs of hex digits, grouped and spaced any way
+    bytes.fromhex() reads them (runs of pairs without separator, blanks, tabs, line ends, leading and trailing space).  The
+    same bytes in another layout are the same message - or the same ValueError; a first group of four to eight digits is
+    two to four bytes, not an offset column."""
+    import random
+    rng = random.Random(f'{ctx.seed}:hex-layouts')
+    n = 0
+    seqs = [[0x90, 0x3C, 0x40], [0xC0, 0x05], [0xB0, 0x07, 0x64], [0xF0, 0x7E, 0x7F, 0x06, 0x01, 0xF7], [0xF8], [0xFE], [0xF0, 0xF7],
+            [0xE0, 0x00, 0x40], [0xF2, 0x01, 0x02], [0xF0] + [i % 128 for i in range(40)] + [0xF7],
+            # not one message
+            [0xFE, 0xFE, 0x90, 0x3C, 0x40], [0x90, 0x3C, 0x40, 0x90, 0x3C, 0x00], [0x3C, 0x40, 0xC0, 0x05], [0x00, 0x00, 0x90, 0x3C, 0x40],
+            [0x00, 0x10, 0xF8], [0xF0, 0x7E, 0x7F, 0x06, 0xF0, 0x7E, 0xF7], [0x12, 0x34], [0xF8, 0xF8], [0x90, 0x3C], [0xAB, 0xCD, 0xEF, 0x01, 0xF8]]
+    spaces = [' ', '  ', '\t', '\n', '\r\n', ' \n', '\x0b', '\x0c']
+    for seq in seqs:
+        pairs = ['%02X' % b for b in seq]
+        layouts = {''.join(pairs), ' '.join(pairs), ''.join(pairs) + '\n', ''.join(pairs) + ' ', ' ' + ''.join(pairs), '\n'.join(pairs),
+                   ''.join(pairs[:2]) + ' ' + ' '.join(pairs[2:]), ''.join(pairs[:3]) + '\n' + ''.join(pairs[3:]),
+                   ''.join(pairs[:4]) + ' ' + ''.join(pairs[4:]), ' '.join(pairs).lower(), '\t' + ' '.join(pairs) + '\r\n',
+                   '0000: ' + ' '.join(pairs), '000010 ' + ' '.join(pairs), '0000  ' + ' '.join(pairs)}
+        for _ in range(12):
+            text = rng.choice(('', ' ', '\n'))
+            for i, pr in enumerate(pairs):
+                text += (pr if rng.random() < 0.5 else pr.lower())
+                if i < len(pairs) - 1 and rng.random() < 0.6:
+                    text += rng.choice(spaces)
+            layouts.add(text + rng.choice(('', ' ', '\n', '\r\n')))
+        for text in sorted(layouts):
+            case = {'kind': 'hex-layout', 'text': text}
+            try:
+                spelt = list(bytes.fromhex(text))
+            except ValueError:
+                spelt = None
+            want = spelt if spelt is not None and midi1.accept(spelt) else None
+            try:
+                m = Message.from_hex(text)
+                ctx.check('from_hex rejects' if want is None else 'from_hex accepts', want is not None and m.bytes() == want,
+                          'from_hex-layout-accepted' if want is None else 'from_hex-layout-differs', case, lambda: {'got': repr(m)[:120], 'spells': spelt})
+            except ValueError as exc:
+                ctx.check('from_hex accepts' if want is not None else 'from_hex rejects', want is None, 'from_hex-layout-rejected', case,
+                          lambda: {'error': str(exc)[:100], 'spells': spelt})
+            except Exception as exc:
+                ctx.check('exception class', False, f'from_hex-layout-{type(exc).__name__}', case, f'{type(exc).__name__}: {exc}')
+            n += 1
+    return n
+
+
 def perturbed_sample(ctx):
     """Repeat a sample of the grid after other (often failing) mido calls:
     state leaked by them into the decoder would show."""
@@ -586,7 +633,7 @@ def run(ctx):
         ctx.extra('array_and_long_sysex_cases', h)
         n += h
     if ctx.shard == 2 % ctx.nshards:
-        h = hex_cases(ctx) + trailing_byte_cases(ctx)
+        h = hex_cases(ctx) + hex_layout_cases(ctx) + trailing_byte_cases(ctx)
         ctx.nontrivial(None, h)
         n += h
     from .. import coldstart
@@ -638,6 +685,8 @@ def replay(ctx, case):
         history_cases(ctx)
     elif case['kind'] in ('hex', 'hex-sep'):
         hex_cases(ctx)
+    elif case['kind'] == 'hex-layout':
+        hex_layout_cases(ctx)
     elif case['kind'] == 'cold':
         from .. import coldstart
         coldstart.replay(ctx, case, 'bytes()==input')
